@@ -123,3 +123,30 @@ def compare(ctx, ran):
                 first = {"id": "alloc/%d" % i, "source": c["src"], "at": k, "model": model[k:k + 1], "real": real[k:k + 1]}
     ctx.notes["alloc_model"] = {"behaviours": len(beh), "states": st.get("distinct"), "accepted_by_Emit": len(beh), "replayed_into_converter": len(pick),
                                 "same_labels_as_converter": agree, "different": differ, "first_difference": first, "conforms": differ == 0}
+
+
+def inductive(ctx):
+    """spec/apalache/EmitAllocInd.tla: label freshness for programs of any length as an inductive invariant, discharged by Apalache (three runs)"""
+    import shutil
+    import subprocess
+    import vlib
+    if shutil.which("apalache-mc") is None:
+        ctx.notes["alloc_inductive"] = {"run": False, "why": "apalache-mc not on PATH"}
+        return
+    wd = ctx.sub("apalache")
+    shutil.copy(os.path.join(vlib.VERIF, "spec", "apalache", "EmitAllocInd.tla"), wd)
+    steps = [("initial", ["--init=Init", "--inv=IndInv", "--length=0"]), ("inductive step", ["--init=IndInit", "--inv=IndInv", "--length=1"]),
+             ("implies freshness", ["--init=IndInit", "--inv=Fresh", "--length=0"])]
+    res = {}
+    for name, args in steps:
+        try:
+            r = subprocess.run(["timeout", "600", "apalache-mc", "check", "--cinit=CInit"] + args + ["--out-dir=" + os.path.join(wd, "out"), "EmitAllocInd.tla"],
+                               cwd=wd, stdout=subprocess.PIPE, stderr=subprocess.STDOUT, text=True)
+        except OSError as e:
+            ctx.notes["alloc_inductive"] = {"run": False, "why": str(e)}
+            return
+        ok = "EXITCODE: OK" in r.stdout
+        if not ok and ("The outcome is: Error" in r.stdout or "Found" in r.stdout and "error(s)" in r.stdout):
+            raise Infra("spec/apalache/EmitAllocInd.tla: obligation '%s' fails - IndInv is not inductive for the modelled allocation scheme" % name)
+        res[name] = "ok" if ok else "not decided (exit %d)" % r.returncode
+    ctx.notes["alloc_inductive"] = {"run": True, "tool": "apalache-mc 0.58", "obligations": res, "discharged": sum(1 for v in res.values() if v == "ok")}
